@@ -405,6 +405,10 @@ def check_simulates_tables(R, drv, mod, desc, solver="bwd_euler", backend="jax.s
         R.count("simmodel:not-encodable:" + type(ex).__name__)
         return None
     R.evaluations += 1
+    # every module is a new shape: the compiled executables of `integrate` pile up in long (thorough) runs
+    check_simulates_tables.calls = getattr(check_simulates_tables, "calls", 0) + 1
+    if check_simulates_tables.calls % 8 == 0:
+        jax.clear_caches()
     R.count(f"simmodel:{solver}:{backend}:{out['model']}")
     if out["model"] == "ok" and out["real"] == "ok":
         R.extra["simmodel_max_reldiff"] = max(R.extra.get("simmodel_max_reldiff", 0.0), float(out.get("maxrel", 0.0)))
